@@ -2,6 +2,7 @@
 //! model driver, plus per-property oracles used to search for replays (DESIGN.md §4.2, §5).
 mod c09;
 mod c11;
+mod c12;
 mod driver;
 mod geom;
 mod report;
@@ -44,6 +45,7 @@ fn main() {
     let r = match prop.as_str() {
         "C09" => c09::run(&mut rep, &tier, seed),
         "C11" => c11::run(&mut rep, &tier, seed),
+        "C12" => c12::run(&mut rep, &tier, seed),
         other => Err(format!("no harness for property {other}")),
     };
     if let Err(e) = r {
